@@ -13,3 +13,4 @@ CONSTANTS
   HandoffChecksCapacity = FALSE
   ForwardCountedOnce = FALSE
   SourceKeyFromMapping = FALSE
+  WithFail = FALSE
